@@ -1,4 +1,4 @@
-(* Hand-written model of aotools/turbulence/profile_compression.py: equivalent_layers (arange / digitize slab
+(* Hand-written model of aotools/turbulence/profile_compression.py: equivalent_layers (slab edges / digitize
    assignment), the contiguous groupings of optimal_grouping (splits -> groups, cost, vicinity, local search
    with fuel, restarts from a supplied list of random groupings).  Definitions only. *)
 From Coq Require Import ZArith Bool List Arith.
@@ -11,13 +11,9 @@ Section Compress.
   Definition lmax (l : list T) : T := fold_left (nmax O) l (hd (nzero O) l).
   Definition lmin (l : list T) : T := fold_left (nmin O) l (hd (nzero O) l).
 
-  (* numpy.arange(start, stop, step): length ceil((stop-start)/step); numpy fills element k as
-     start + k*delta with delta = (start + step) - start *)
-  Definition nceil (x : T) : T := nopp O (nfloor O (nopp O x)).
-  Definition arange (start stop step : T) : list T :=
-    let len := Z.to_nat (ntoZ O (nceil (ndiv O (nsub O stop start) step))) in
-    let delta := nsub O (nadd O start step) start in
-    map (fun k => nadd O start (nmul O (kn k) delta)) (seq 0 len).
+  (* slab edges h.min() + hstep * numpy.arange(L): exactly L edges, the first one h.min() itself *)
+  Definition slab_edges (start step : T) (L : nat) : list T :=
+    map (fun k => nadd O start (nmul O step (kn k))) (seq 0 L).
   (* numpy.digitize(x, bins) (increasing bins, right=False): number of bins b with b <= x *)
   Definition digitize (x : T) (bins : list T) : nat := length (filter (fun b => nleb O b x) bins).
 
@@ -26,7 +22,7 @@ Section Compress.
   (* returns per slab i = 1..L : (h_el, cn2_el, w_el) *)
   Definition equivalent_layers (h p w : list T) (L : nat) : list (T * T * T) :=
     let hstep := ndiv O (nsub O (lmax h) (lmin h)) (kn L) in
-    let bins := arange (lmin h) (lmax h) hstep in
+    let bins := slab_edges (lmin h) hstep L in
     let ix := map (fun x => digitize x bins) h in
     map (fun i =>
       let sel {A} (l : list A) := map snd (filter (fun kx => Nat.eqb (fst kx) (S i)) (combine ix l)) in
